@@ -22,7 +22,7 @@ RULE = ('case = triple (A, B, C) of hints: either a widening chain (B derived fr
         'covariant child widening, NewType/TypeVar -> supertype/bound) or unrelated random hints, plus 3 objects built to conform to A. '
         'Laws: reflexivity of each hint; transitivity on beartype\'s own answers; soundness (A <= B, Any-free: every object conforming to A '
         'is accepted against B for every draw and by the reference semantics); TypeHint(h) is TypeHint(h); equal wrappers have equal hashes '
-        'and are mutual subhints; len/iter/getitem/contains/args describe the same children. non-trivial = some A <= B holds with A != B '
+        'and are mutual subhints; len/iter/getitem/contains/args describe the same children; == is asked in both orders; one case in twelve is a near-miss triple (tuple[X], tuple[X, ...], tuple[X, X], tuple[()]). non-trivial = some A <= B holds with A != B '
         '(pairs) or both premises of transitivity hold with three distinct hints; distinct by canonical JSON')
 ASSUMPTIONS = [
     'only soundness and the order laws are asserted; a widening beartype does not recognise is counted, not alarmed',
